@@ -195,6 +195,25 @@ fn check_one<CS: BbsCiphersuite>(rep: &Report, ck: &str, c: &Case) -> CheckResul
         }
         rep.class(&format!("class-masks:{}", bucket(l)));
     }
+    // a key related to the case's key (r - sk: the public key is the negation; sk + 1), imported through the octet
+    // form and used for the same statement right after it on this thread; then the case's own key once more
+    if c.mask_seed % 4 == 0 && l <= 40 {
+        use bls12_381_plus::Scalar;
+        if let Some(x) = Option::<Scalar>::from(Scalar::from_be_bytes(&sk.to_bytes())) {
+            for (what, y) in [("r - sk", -x), ("sk + 1", x + Scalar::ONE)] {
+                let Ok(sk2) = BBSplusSecretKey::from_bytes(&y.to_be_bytes()) else { continue };
+                let pk2 = sk2.public_key();
+                let sig2 = match Signature::<BBSplus<CS>>::sign(Some(&msgs), &sk2, &pk2, header.as_deref()) {
+                    Ok(s) => s.to_bytes(),
+                    Err(e) => return rep.fail(ck, "sign-failed:related-key", format!("key {}: {:?}", what, e), cj()),
+                };
+                let (label, idx) = mask_classes(l, c.mask_seed as u64 ^ 0x5EED).into_iter().last().unwrap_or(("none".into(), vec![]));
+                one_mask::<CS>(rep, ck, c, &pk2, &sig2, &msgs, header.as_deref(), ph.as_deref(), &format!("related-key({}):{}", what, label), &idx)?;
+                one_mask::<CS>(rep, ck, c, pk, &sig, &msgs, header.as_deref(), ph.as_deref(), &format!("after-related-key({}):{}", what, label), &idx)?;
+            }
+            rep.class("related-keys-used-in-sequence");
+        }
+    }
     rep.class(&format!("header={},ph={}", c.header.class(), c.ph.class()));
     rep.sample(ck, json!({"suite": c.suite.name(), "L": l, "header": c.header.class(), "ph": c.ph.class(), "all_masks": c.all_masks}));
     Ok(())
@@ -309,7 +328,7 @@ pub fn run(ctx: &Ctx, rep: &Report) -> Meta {
     Meta {
         rule: "honest signature x header x ph x disclosure mask: ALL 2^L masks for L = 0..=6 (quick) / 0..=10 (thorough) under both suites and three header/ph classes, \
                plus class-sampled masks (none, all, first, last, all-but-last, evens, only-22, all-but-22, random half/sparse/dense) for L in {7..257, 1000}; \
-               every L in 7..=72 (quick) / 7..=200 (thorough) with the class masks, the fixed cases under contention, the same proof object verified again after being refused under another key and header, verification repeated on a freshly started thread, for half of the masks a call the library refuses (17 kinds: key generation with short key material / long tags, garbage octets into the decoders, a commitment of 0xc0 octets into blind_sign, verification / proof generation / update with other headers, positions out of range, lists too short, a tag of 256 octets into hash_to_scalar) right before proof_gen or right before proof_verify (then also this proof with a position beyond the vector and with a message too few), half of the cases after a warm-up history, four long-lived threads with 40 (quick) / 300 (thorough) cases each in sequence (each with its class-sampled masks); oracle: proof_gen Ok, proof_verify Ok with exactly msgs|D (also when the verifier spells an empty header / presentation header the other way, None <-> Some(empty)), equal object and Ok after from_bytes(to_bytes()) and (L <= 40) after serde_json, length = 272 + 32*U; production randomness path; \
+               every L in 7..=72 (quick) / 7..=200 (thorough) with the class masks, the fixed cases under contention, the same proof object verified again after being refused under another key and header, verification repeated on a freshly started thread, for half of the masks a call the library refuses (17 kinds: key generation with short key material / long tags, garbage octets into the decoders, a commitment of 0xc0 octets into blind_sign, verification / proof generation / update with other headers, positions out of range, lists too short, a tag of 256 octets into hash_to_scalar) right before proof_gen or right before proof_verify (then also this proof with a position beyond the vector and with a message too few), a quarter of the cases (up to 40 messages) repeat one mask under the keys r - sk and sk + 1 imported through the octet form and then under the case's key again, half of the cases after a warm-up history, four long-lived threads with 40 (quick) / 300 (thorough) cases each in sequence (each with its class-sampled masks); oracle: proof_gen Ok, proof_verify Ok with exactly msgs|D (also when the verifier spells an empty header / presentation header the other way, None <-> Some(empty)), equal object and Ok after from_bytes(to_bytes()) and (L <= 40) after serde_json, length = 272 + 32*U; production randomness path; \
                non-trivial = (L, mask) outside the three fixture disclosure sets; evaluations = proof verifications + decode checks"
             .into(),
         assumptions: vec!["index lists handed to the library are ascending and duplicate-free (documented precondition)".into()],
